@@ -160,7 +160,12 @@ Definition c_psub := lift2 (fun x y => COk (x - y)).
 Definition c_load (m : list N) (i : cres Z) : cres Z :=
   k <- i ;;
   if (0 <=? k) && (k <? Z.of_nat (length m)) then COk (Z.of_N (byte_at m (Z.to_nat k))) else COob.
-Definition upd (m : list N) (k : nat) (v : N) : list N := store m k [v].
+Fixpoint upd (m : list N) (k : nat) (v : N) : list N :=
+  match m, k with
+  | [], _ => []
+  | _ :: t, O => v :: t
+  | h :: t, S k' => h :: upd t k' v
+  end.
 Definition c_store (m : list N) (i v : cres Z) : cres (list N) :=
   k <- i ;; x <- v ;;
   if (0 <=? k) && (k <? Z.of_nat (length m)) then COk (upd m (Z.to_nat k) (Z.to_N x)) else COob.
